@@ -82,6 +82,13 @@ type coalescer struct {
 	netClient *inet.Client
 	in        chan *internalpb.RemoteMessage
 	done      chan struct{}
+	// stop tells the writer goroutine to drain the buffer and exit. close
+	// closes it only after every submit that was in flight when done was
+	// closed has returned, so nothing is enqueued behind the writer's back.
+	stop chan struct{}
+	// inflight is held in shared mode by submit from its done check to its
+	// send, and taken exclusively by close between closing done and stop.
+	inflight  sync.RWMutex
 	closeOnce sync.Once
 	wg        sync.WaitGroup
 
@@ -101,6 +108,7 @@ func newCoalescer(dest string, nc *inet.Client, cfg coalescingConfig) *coalescer
 		netClient:  nc,
 		in:         make(chan *internalpb.RemoteMessage, maxBatch*4),
 		done:       make(chan struct{}),
+		stop:       make(chan struct{}),
 		maxBatch:   maxBatch,
 		errHandler: cfg.errHandler,
 	}
@@ -127,6 +135,13 @@ func newCoalescer(dest string, nc *inet.Client, cfg coalescingConfig) *coalescer
 //   - errCoalescerClosed if the coalescer is shut down while the caller is
 //     waiting (or before the call began).
 func (c *coalescer) submit(ctx context.Context, msg *internalpb.RemoteMessage) error {
+	// The done check and the send below are separate steps. Holding inflight
+	// across them lets close wait for this submit before it stops the writer:
+	// a message enqueued after the writer's final drain would be accepted and
+	// then never sent nor reported.
+	c.inflight.RLock()
+	defer c.inflight.RUnlock()
+
 	// Pre-check shutdown so a submit after close returns immediately rather
 	// than racing with a context that has no deadline.
 	verifhook.At("coal.submit.check", c, 0, 0)
@@ -158,10 +173,19 @@ func (c *coalescer) submit(ctx context.Context, msg *internalpb.RemoteMessage) e
 	}
 }
 
-// close signals the writer goroutine to flush and exit, then blocks until
-// the goroutine returns. Safe to call multiple times.
+// close refuses new submits, waits for the ones in flight, signals the writer
+// goroutine to flush and exit, then blocks until the goroutine returns. Safe
+// to call multiple times.
 func (c *coalescer) close() {
-	c.closeOnce.Do(func() { close(c.done) })
+	c.closeOnce.Do(func() {
+		// Wakes blocked submits and makes later ones fail fast.
+		close(c.done)
+		// Every submit that passed its done check has either enqueued its
+		// message or observed done once the exclusive lock is granted.
+		c.inflight.Lock()
+		close(c.stop)
+		c.inflight.Unlock()
+	})
 	verifhook.At("coal.close.wait", c, 0, 0)
 	c.wg.Wait()
 }
@@ -227,10 +251,10 @@ func (c *coalescer) run() {
 	for {
 		verifhook.At("coal.run.select", c, int64(len(batch)), 0)
 		select {
-		case <-c.done:
-			// Drain anything still buffered and exit. Submit refuses new
-			// enqueues once done is closed, so the channel is a bounded
-			// set at this point.
+		case <-c.stop:
+			// Drain anything still buffered and exit. No submit is in
+			// flight once stop is closed and later ones are refused, so
+			// the channel is a bounded set at this point.
 			drainReady()
 			flush()
 			// The buffer holds up to four batches, so one drainReady/flush
